@@ -21,7 +21,7 @@ TEXT["C06"] = {
     "engine": "harness/c06 (E-api rapid, round trip)",
     "technique": "property-based round-trip testing of output caching/restoring through the real output registry over generated trees and generated prior destination states",
     "design_ref": "DESIGN.md §4 C06",
-    "level_text": "Generated file and directory outputs (exec bits, symlinks incl. dangling/escaping, empty dirs, duplicate contents, odd names) are cached with Registry.WriteOutputs, the destination is put into one of 13 prior states, Registry.LoadOutputs must succeed and reproduce the recursive listing exactly.",
+    "level_text": "Generated file and directory outputs (exec bits, symlinks incl. dangling/escaping, empty dirs, duplicate contents, odd names) are cached with Registry.WriteOutputs, the destination is put into one of 17 prior states (incl. a directory or an outward symlink where a file belongs), Registry.LoadOutputs must succeed and reproduce the recursive listing exactly.",
     "level_note": "Trusted: the listing function (type, exec bit, size, sha256, link target). Modes other than exec, mtimes and ownership are not compared. Real-binary restore paths are exercised by the history checks (C01/C02).",
 }
 TEXT["C12"] = {
@@ -42,7 +42,7 @@ TEXT["C19"] = {
     "engine": "harness/c19 (E-api rapid over parametric families)",
     "technique": "metamorphic scaling test on parametric graph families (ladder/dense vs chain) with deterministic work counters and CPU-time ratio",
     "design_ref": "DESIGN.md §4 C19",
-    "level_text": "Selection, ancestor/descendant traversal (work counters) and graph building with ordered overlapping writers, critical path, failure propagation and a full walk (CPU time with a 1000x margin) are run on ladders and dense DAGs with up to 2^24 dependency paths and compared with chains of equal size.",
+    "level_text": "Selection, ancestor/descendant traversal (work counters) and graph building with ordered overlapping writers, critical path, failure propagation and a full walk (CPU time with a 1000x margin) cycle search (with and without a cycle closing over the whole depth) and the selected subgraph are run on ladders, dense DAGs and irregular layered DAGs with up to 2^24 (walker and cycle search: 2^40) dependency paths and compared with chains of equal size; every operation runs under a 90 s watchdog.",
     "level_note": "Nothing is proved about complexity. CPU-time threshold: > 2 s and > 50x the chain (a correct run takes milliseconds). Query commands of the binary are covered by C20 (each label once).",
 }
 TEXT["C16"] = {
@@ -58,13 +58,13 @@ TEXT["C03"] = {
     "technique": "schedule-owning property testing: real walker + real worker pool in a testing/synctest bubble where generated latencies determine the completion order; invariants over the event history; race-detector stress on the real scheduler",
     "design_ref": "DESIGN.md §4 C03",
     "level_text": "Generated DAGs (incl. alias nodes), selections, worker counts and per-node virtual latencies drive the real Walker and TaskWorkerPool; the event history must show dependencies-first, at most one start per node, running <= num_workers, nothing unselected. The same cases run on the real scheduler with the race detector.",
-    "level_note": "Same-instant interleavings are the Go scheduler's (sampled, not enumerated). Command-level ordering of the real binary (S/E markers in real builds) is checked by the history engine of C01/C02/C05.",
+    "level_note": "Same-instant interleavings are the Go scheduler's (sampled, not enumerated). Command-level ordering and the worker bound are also observed on the real binary (part binary: S/E markers written by slow commands, fewer workers than the graph is wide, a third round under load_outputs=minimal after a fresh checkout or a wiped blob store).",
 }
 TEXT["C04"] = {
-    "engine": "harness/c04 + lib/walkeng (bubble, race, stress) + restore fault enumeration through the real output registry",
+    "engine": "harness/c04 + lib/walkeng (bubble, race, race-cancel, stress) + restore fault enumeration through the real output registry + lib/histeng timeout/failure histories of the real binary",
     "technique": "property testing over failure/cancel patterns with synctest deadlock detection, race-detector stress, and exhaustive single/pair fault enumeration over every cache object of a restore",
     "design_ref": "DESIGN.md §4 C04",
-    "level_text": "Walker level: generated failure sets, fail-fast on/off and cancel times over graphs up to 4000 nodes; Walk must return and leave every selected node resolved. Restore level: for every cache blob of generated outputs x {deleted, truncated, emptied}, pairs of deletions and all-deleted, LoadOutputs must return.",
+    "level_text": "Walker level: generated failure sets, fail-fast on/off and cancel times over graphs up to 4000 nodes; Walk must return and leave every selected node resolved. Restore level: for every cache blob of generated outputs x {deleted, truncated, emptied}, pairs of deletions and all-deleted, LoadOutputs must return. Binary level: histories in which targets exceed their declared timeout, fail or kill their shell, in keep-going and fail-fast builds; every build must exit on its own and resolve every selected target.",
     "level_note": "Fault enumeration is complete per generated output set for single faults (and up to 40 pairs); which output sets are generated is sampled. Leaked goroutines after Walk returned are not violations.",
 }
 TEXT["C10"] = {
@@ -84,7 +84,7 @@ _hist_text("C01", "stateful model-based property testing of the real binary: gen
     "Trusted: the command template's determinism and the 40-line expectation interpreter (cross-checked against from-scratch grog builds on a sample). Small graphs (<=6 targets) on purpose: stale hits need a pair of states, not a big graph.")
 _hist_text("C02", "stateful model-based property testing: executed sets (trace lines written by the commands themselves) against a three-valued reference model, under workspace perturbations",
     "Between builds the workspace copies of declared outputs are deleted, truncated, overwritten, chmod-ed, polluted or replaced, parents removed; builds run in both load_outputs modes, both hash algorithms and 1-8 workers. No MUST-NOT target may execute, every MUST target must, a no-op rebuild executes nothing, and outputs must be exact afterwards.",
-    "MAY verdicts (entries written with caching off, after faults, fail-fast races) are never violations. Checkout relocation is not exercised (the cache directory name is derived from the workspace path).")
+    "MAY verdicts (entries written with caching off, after faults, fail-fast races) are never violations. Checkout relocation is a history step (the checkout is moved and the cache directory renamed to the name grog derives for the new path).")
 _hist_text("C05", "stateful model-based property testing with injected command failures (undeclared switch files) in keep-going and fail-fast mode, plus walker-level containment in a synctest bubble",
     "Failing subsets (exit status, missing declared output, timeout, failing/wrong post-condition, self-SIGKILL) are switched on and off without moving cache keys. Keep-going: independent targets complete, dependants are skipped, exit != 0, failed targets named, nothing cached (follow-up build runs them again). Fail-fast at walker level: no command starts at a later virtual instant than the first failure.",
     "For fail-fast builds of the real binary only the safe half is asserted (dependants of a failed target never run; exit != 0); which independent targets still start is timing dependent and left MAY.")
@@ -110,7 +110,7 @@ TEXT["C07"] = {
     "technique": "fault-injection property testing: generated operation sequences with failing readers and chunk-level controlled concurrent writers against a map model; SIGKILL inside Set at enumerated chunk positions in a child process; kill -9 and unwritable-store histories of the real binary followed by an offline cache audit and recovery builds",
     "design_ref": "DESIGN.md §4 C07",
     "level_text": "Every key must hold exactly one complete content of a completed write under failing, concurrent (interleaving owned by the harness at copy-chunk granularity) and killed writers; a CAS write that reports success must leave the blob retrievable; after every real build that is killed or runs against an unwritable blob store the cache directory is audited (digests re-hashed, target results decoded, every referenced blob present) and later builds must succeed with exact outputs.",
-    "level_note": "Crash points inside the binary are sampled in time, not enumerated (no yield-point overlay was built for the backends); the copy loop positions 0..12 are enumerated in-process.",
+    "level_note": "Crash points inside the real binary are sampled in time; in-process the copy loop positions 0..12 are enumerated, every backend operation of whole in-process builds is faulted/crashed in turn (op-faults), and every half of a write-through is faulted (wrapper-faults).",
 }
 TEXT["C08"] = {
     "engine": "harness/c08 (wrapper/CAS/target-result API twin over a faulty in-memory remote; real binary against lib/fakes3, three cache roots over one checkout) + lib/audit",
